@@ -119,6 +119,7 @@ class Schema:
 class Extract:
     def __init__(self, sch, ref, fn, mode):
         self.sch, self.ref, self.rel, self.fn, self.mode = sch, ref, ref[0], fn, mode
+        self.cond_stack = []
         self.params = [a.arg for a in fn.args.args]
         self.streams = set()
         if len(self.params) > 1:
@@ -173,7 +174,9 @@ class Extract:
                 tn = self.tagnext(s.test)
                 if tn is not None:
                     kind = 'req' if is_raise_block(s.orelse) else 'opt'
+                    self.cond_stack.append(('tag', tn))
                     self.walk(s.body, guards, ('tag', tn, kind))
+                    self.cond_stack.pop()
                     if not is_raise_block(s.orelse):
                         self.walk(s.orelse, guards, ctx)
                     continue
@@ -194,7 +197,9 @@ class Extract:
                         name, pol = pres
                         body, orelse = (s.body, s.orelse) if pol else (s.orelse, s.body)
                         kind = 'req' if is_raise_block(orelse) else 'opt'
+                        self.cond_stack.append(('pres', name.lstrip('_')))
                         self.walk(body, guards, ('pres', name, kind))
+                        self.cond_stack.pop()
                         if not is_raise_block(orelse):
                             self.walk(orelse, guards, ctx)
                         continue
@@ -305,6 +310,7 @@ class Extract:
         if isinstance(tag, str) and tag.startswith('?'):
             tag = None          # self-describing element: its tag is whatever the field object carries
         self.events.append(dict(ident=ident, tag=tag, kind=kind, guards=list(guards), line=call.lineno, ctx=ctx[0] if ctx else None, stream=stream, cls=cls, recv=rn,
+                                conds=list(self.cond_stack),
                                 alt=self.altgroup if getattr(self, '_in_alt', False) else None))
 
     def setter_tag(self, rn):
